@@ -41,7 +41,8 @@ type ctl struct {
 	// commit fails, and the oracle read after that one is slow (so that whoever reads the lock's
 	// description does so before a later read refreshes it)
 	tsoArmed bool
-	tsoState int // 0 idle, 1 fail the next oracle read, 2 delay the next oracle read
+	tsoSlow  bool // armed: after the next successful commit the next oracle read is only SLOW (state 2), not failed
+	tsoState int  // 0 idle, 1 fail the next oracle read, 2 delay the next oracle read
 	tsoFired int
 
 	// scheduled mode
@@ -324,6 +325,10 @@ func (b *batchWrap) Commit(ctx context.Context) error {
 			if b.w.c.tsoArmed {
 				b.w.c.tsoArmed = false
 				b.w.c.tsoState = 1
+				if b.w.c.tsoSlow {
+					b.w.c.tsoSlow = false
+					b.w.c.tsoState = 2
+				}
 			}
 			b.w.c.mu.Unlock()
 		}
